@@ -107,3 +107,17 @@ Theorem Conc_from_new : forall g, wf_geom g -> forall p, builtin_policy p (TF g)
         (uquiescent s -> UpperInv g p {| us := m2_up s; off := snd x |}).
 Proof. exact conc_from_new. Qed.
 Print Assumptions Conc_from_new.
+
+(* the exclusion of change_tree(.., Online) from `sched_valid` is necessary: a concrete M2 schedule (one tree, thread 0
+   frees frame 0, thread 1 onlines the tree between the lower free and the counter increment) ends quiescent with the
+   tree counter at 2 and one frame free (UpperOnlineRace.v; outside the quantifiers of C03/C04/C15, documented as an
+   observation in DESIGN.md) *)
+From LLF Require Import UpperOnlineRace.
+Theorem Conc_online_exclusion_necessary :
+  upper_invb g7 simple7 (ustate_new u0) = true /\
+  upanicked s_end = [] /\ forallb (fun x => match x with UIdle (Some _) => true | _ => false end) (m2_pool s_end) = true /\
+  map t_free (trees (m2_up s_end)) = [2] /\
+  tree_free g7 (low (m2_up s_end)) 0 = 1 /\
+  ~ UpperInv g7 simple7 (ustate_new (m2_up s_end)).
+Proof. exact conc_online_put_double_count. Qed.
+Print Assumptions Conc_online_exclusion_necessary.
